@@ -53,6 +53,7 @@ fn run_geo(c: &MultiCase) -> CaseResult {
             }
             was_over = over;
             wraps |= full.iter().any(|l| console::measure_text_width(l) > it.cols);
+            v.label_if(full.iter().any(|l| l.len() >= 65536 * it.cols), "line_of_65536_rows_or_more");
             wide_wraps |= full.iter().any(|l| console::measure_text_width(l) > it.cols && l.chars().count() <= it.cols);
         }
     }
@@ -113,7 +114,9 @@ fn geo_strategy(tier: Tier) -> BoxedStrategy<MultiCase> {
             let ascii = (0usize..4, -2i32..=2).prop_map(move |(k, d)| "w".repeat(((k * c) as i32 + d - 5).max(0) as usize));
             // double-width glyphs: fewer characters than columns, yet the line wraps
             let wide = (c / 4..c + 2).prop_map(|n| "\u{9032}".repeat(n));
-            let msg = prop_oneof![14 => ascii, 1 => wide];
+            // on the narrowest terminals: a line that wraps into 65536 rows or a few more
+            let huge = (-2i32..=6).prop_map(move |d| if c < 4 { "h".repeat(((65536 * c) as i32 + d - 5) as usize) } else { "w".repeat((2 * c) as usize) });
+            let msg = prop_oneof![28 => ascii, 2 => wide, 1 => huge];
             let msg2 = msg.clone();
             let spec = (proptest::option::weighted(0.8, 1u64..50), prop_oneof![3 => Just(2u8), 2 => Just(0u8), 1 => 1u8..5], msg.clone())
                 .prop_map(|(len, on_finish, msg)| BarSpec { two_lines: false, len, on_finish, msg, key_nl: false, blank_first: 0 });
@@ -277,7 +280,7 @@ pub fn property() -> Property {
             cases: |t| t.pick(16_000, 800_000),
             run: run_geo,
             signature: crate::props::c02::signature,
-            essential: &["line_wraps", "frame_taller_than_terminal", "fits_again_after_overflow", "one_row_or_one_column", "log_lines", "double_width_line_wraps_with_fewer_chars_than_columns", "terminal_height_changed", "terminal_wider_than_256_columns", "draws_skipped_by_the_limiter", "empty_line_printed_through_a_member"],
+            essential: &["line_wraps", "frame_taller_than_terminal", "fits_again_after_overflow", "one_row_or_one_column", "log_lines", "double_width_line_wraps_with_fewer_chars_than_columns", "terminal_height_changed", "terminal_wider_than_256_columns", "draws_skipped_by_the_limiter", "empty_line_printed_through_a_member", "line_of_65536_rows_or_more"],
             workers: w,
             decode: Some(|u| decode_multi(u, 2)),
         }),
